@@ -108,6 +108,22 @@ CHECKS = {
         note="Perturbations of 1e-12..1e-7 are explored and counted, never judged (the statement's 1e-6 band).",
         technique="TLA+ validity table machine enumerated by TLC; gamma_defect realisation and replay",
         ref="6 (C07)"),
+    "C15": dict(
+        text="Api.tla is the interface table: 100+ entries (base functions, constructors, methods, pose*vector) with the "
+             "admissible lengths of each vector argument, the entries that take or return angles with a unit, the entries "
+             "with an axis order, and the separate-scalar call forms. TLC checks the table's sanity and enumerates every "
+             "(entry, argument, container form in {list, tuple, 1-D, row, column}, length 0..8, int/float), every unit / "
+             "bad unit / order name, alias and misspelling / scalar-vs-packed case with its expected outcome; each is "
+             "executed: accepted forms must give results identical (shape and bits) to the 1-D array form, wrong lengths "
+             "must raise (never None, truncation or padding), deg must equal rad, unknown units/orders must raise. "
+             "Exhaustive over the table; the table is cross-checked against the package's export list by reflection and "
+             "names it does not cover are listed in evidence.",
+        note="The table is the author's transcription of signatures/docstrings. Predicates (is*) are only checked for "
+             "form-interchangeability, not for rejecting wrong lengths; 2-D point-set arguments are out of scope as the "
+             "statement says.",
+        technique="TLA+ interface-table machine (Api.tla) enumerated by TLC; per-case replay with a bitwise oracle "
+                  "(result of the 1-D array form)",
+        ref="6 (C15)"),
 }
 
 ENGINE = {"name": "tlc-replay", "path": "/verif/check",
